@@ -162,20 +162,43 @@ def check(prog, run):
     fr = prog.get_func("py_gql.execution.executor", "Executor.field_resolver")
 
     def chain(f, var):
-        # the fallback chain is the one `a or b or c` assignment whose operands read *resolver attributes (the local's name is only a hint)
-        defs = [n for n in own_nodes(f.node) if isinstance(n, ast.Assign) and isinstance(n.value, ast.BoolOp) and isinstance(n.value.op, ast.Or)
-                and any(isinstance(x, ast.Attribute) and "resolver" in x.attr for v in n.value.values for x in ast.walk(v))]
-        if len(defs) != 1:
-            return None, defs[0] if defs else None
-        out = []
-        for v in defs[0].value.values:
+        """The ordered fallback chain that ends up in one local: `x = a or b or c`, or the equivalent
+        `x = a` / `if not x: x = b` / `if not x: x = c` ladder (nested or sequential)."""
+        def item(v):
             if isinstance(v, ast.IfExp):
                 v = v.body
             if isinstance(v, ast.Attribute):
-                out.append(v.attr.lstrip("_"))
-            else:
-                out.append("<%s>" % " ".join(ast.unparse(v).split())[:50])
-        return out, defs[0]
+                return [v.attr.lstrip("_")]
+            if isinstance(v, ast.BoolOp) and isinstance(v.op, ast.Or):
+                return [y for x in v.values for y in item(x)]
+            return ["<%s>" % " ".join(ast.unparse(v).split())[:50]]
+        defs = [n for n in own_nodes(f.node) if isinstance(n, ast.Assign) and len(n.targets) == 1 and isinstance(n.targets[0], ast.Name)
+                and any(isinstance(x, ast.Attribute) and "resolver" in x.attr for x in ast.walk(n.value))
+                and not any(isinstance(x, ast.Call) and not (isinstance(x.func, ast.Name) and x.func.id == "isinstance") for x in ast.walk(n.value))]
+        names = {n.targets[0].id for n in defs}
+        if len(names) != 1:
+            return None, defs[0] if defs else None
+        x = names.pop()
+        out = []
+
+        def ladder(stmts):
+            for st in stmts:
+                if isinstance(st, ast.Assign) and len(st.targets) == 1 and isinstance(st.targets[0], ast.Name) and st.targets[0].id == x:
+                    out.extend(item(st.value))
+                elif isinstance(st, ast.If) and not st.orelse and ((isinstance(st.test, ast.UnaryOp) and isinstance(st.test.op, ast.Not)
+                                                                      and isinstance(st.test.operand, ast.Name) and st.test.operand.id == x)
+                                                                     or ast.unparse(st.test) == "%s is None" % x):
+                    ladder(st.body)
+                elif isinstance(st, (ast.For, ast.While, ast.With, ast.Try)) or (isinstance(st, ast.If) and any(
+                        isinstance(y, ast.Name) and y.id == x and isinstance(y.ctx, ast.Store) for y in ast.walk(st))):
+                    for field in ("body", "orelse", "finalbody"):
+                        ladder(getattr(st, field, []) or [])
+                    for h in getattr(st, "handlers", []):
+                        ladder(h.body)
+                elif any(isinstance(y, ast.Name) and y.id == x and isinstance(y.ctx, ast.Store) for y in ast.walk(st)):
+                    out.append("<?>")
+        ladder(f.node.body)
+        return out or None, defs[0]
     vchain, vdef = chain(vf, "resolver")
     echain, edef = chain(fr, "base")
     r.instance("validator chain %s" % vchain)
@@ -394,9 +417,20 @@ def check(prog, run):
                            "verdict computed before the resolver was (re)assigned" % n)
     vd = sch.methods.get("validate")
     shapes.require(vd is not None, "C13.I1: Schema.validate not found")
-    txt = " ".join(ast.unparse(vd.node).split())
-    r.instance("validate() memo test")
-    if "if self._is_valid is None:" not in txt or "validate_schema(self)" not in txt:
+    # path form: with the memo None every execution calls validate_schema(self); with a verdict stored none does
+    from .. import boolx as _bx
+    memo_ok = True
+    for unset in (True, False):
+        try:
+            _ev, mexits = _bx.walk_under(vd.node, lambda t, unset=unset: unset if t == "self._is_valid is None" else ((not unset) if t == "self._is_valid" else None))
+        except ValueError as e:
+            raise AnalysisError("C13.I1: %s" % e)
+        for kind, st, env in mexits:
+            called = any(ast.unparse(c.func).split(".")[-1] == "validate_schema" for c in env.get(_bx.CALLS, ()))
+            if kind != "raise" and called != unset:
+                memo_ok = False
+    r.instance("validate() recomputes exactly when the memo is None: %s" % memo_ok)
+    if not memo_ok:
         run.report(r, "%s:Schema.validate:memo" % SCHEMA, vd.where(), "validate() does not recompute when the memo is None")
     inv = sch.methods.get("_invalidate_and_rebuild_caches")
     if inv is None or "self._is_valid = None" not in ast.unparse(inv.node):
